@@ -151,9 +151,62 @@ def all_default_record(deck):
 
 
 @st.composite
+def raw_tail(draw):
+    """raw-string keywords (their records are kept as token lists: '/' inside a line is a division sign, the record ends
+    at the LAST slash of the line): UDQ with expressions of 1..16 tokens, ACTIONX with conditions"""
+    atoms = ["FOPR", "FWPR", "FGPR", "WOPR", "WOPR 'P1'", "WWCT 'P*'", "GOPR 'G1'", "2", "0.5", "1e3", "100", "FU_A", "WU_B"]
+    ops = ["+", "-", "*", "/", "/", "^", "<", ">=", "UMAX"]
+
+    def expr(n):
+        toks = []
+        depth = 0
+        for i in range(n):
+            if draw(st.integers(0, 5)) == 0:
+                toks.append(draw(st.sampled_from(["SUM(", "MAX(", "ABS(", "("])))
+                depth += 1
+            toks.append(draw(st.sampled_from(atoms)))
+            if depth and draw(st.integers(0, 2)) == 0:
+                toks.append(")")
+                depth -= 1
+            if i + 1 < n:
+                toks.append(draw(st.sampled_from(ops)))
+        toks += [")"] * depth
+        return " ".join(toks)
+    out = ""
+    if draw(st.booleans()):
+        recs = []
+        for _ in range(draw(st.integers(1, 4))):
+            k = draw(st.integers(0, 5))
+            q = draw(st.sampled_from(["FU_A", "WU_B", "GU_C", "FU_LONGNAM"]))
+            if k <= 2:
+                recs.append(" DEFINE %s %s /" % (q, expr(draw(st.integers(1, 9)))))
+            elif k == 3:
+                recs.append(" ASSIGN %s %s /" % (q, draw(st.sampled_from(["3.5", "'P*' 7", "0"]))))
+            elif k == 4:
+                recs.append(" UNITS %s 'SM3/DAY' /" % q)
+            else:
+                recs.append(" UPDATE %s %s /" % (q, draw(st.sampled_from(["ON", "OFF", "NEXT"]))))
+        out += "UDQ\n%s\n/\n" % "\n".join(recs)
+    if draw(st.booleans()):
+        conds = []
+        n = draw(st.integers(1, 3))
+        for i in range(n):
+            c = "%s %s %s" % (draw(st.sampled_from(["FOPR", "WOPR 'P*'", "GOPR 'G1'", "DAY", "MNTH"])),
+                              draw(st.sampled_from([">", "<", ">=", "=", "!="])),
+                              draw(st.sampled_from(["50", "FWPR", "( 3 * 4 / 2 )", "JAN", "WWPR 'P1'"])))
+            conds.append(" %s%s /" % (c, (" " + draw(st.sampled_from(["AND", "OR"]))) if i + 1 < n else ""))
+        out += "ACTIONX\n 'A1' %d %s /\n%s\n/\nWELOPEN\n '?' 'SHUT' /\n/\nENDACTIO\n" % (
+            draw(st.integers(1, 10)), draw(st.sampled_from(["", "2.5"])), "\n".join(conds))
+    return out
+
+
+@st.composite
 def case_strategy(draw):
     # si_first: the SI view of every item is read before the Deck is written (a Deck that has been used)
-    return {"deck": draw(deckgen.gen_deck(avoid_all_default=True)), "si_first": draw(st.booleans())}
+    c = {"deck": draw(deckgen.gen_deck(avoid_all_default=True)), "si_first": draw(st.booleans())}
+    if draw(st.integers(0, 3)) == 0:
+        c["tail"] = draw(raw_tail())
+    return c
 
 
 class C19(Check):
@@ -217,7 +270,13 @@ class C19(Check):
                     labels.add("all-default-record")
         if case.get("si_first"):
             labels.add("si-read-before-print")
-        return nontriv, sha([[k["name"] for k in deck["kws"]], sorted(labels), deck], 16), sorted(labels)
+        if case.get("tail"):
+            for kwn in ("UDQ", "ACTIONX"):
+                if kwn + "\n" in case["tail"]:
+                    labels.add("raw-string-keyword:" + kwn)
+            if any(len(ln.split()) >= 10 and " / " in ln[:-1] for ln in case["tail"].split("\n")):
+                labels.add("raw-string-record:long-with-division")
+        return nontriv, sha([[k["name"] for k in deck["kws"]], sorted(labels), deck, case.get("tail")], 16), sorted(labels)
 
     def sample_view(self, case):
         if "shipped" in case:
@@ -239,7 +298,7 @@ class C19(Check):
             text = None
         else:
             files, root, _ = layout.render(case["deck"], canonical=True)
-            text = files[root]
+            text = files[root] + case.get("tail", "")
             if has_near_max(case["deck"]):
                 raise Discard()     # see ASSUMPTIONS: 10-digit rounding of |x| within 1e-10 of DBL_MAX overflows
             si = bool(case.get("si_first")) and not has_extreme(case["deck"])
